@@ -391,6 +391,8 @@ func (g *gen) acase() acaseT {
 	k.Prod = r.Chance(1, 4)
 	// a guard: c.Abort() first, then the error response
 	k.AbortFirst = r.Chance(1, 6)
+	// the request before this one matched no route and was answered by the app's NoRoute handler with c.NotFound(nil)
+	k.AfterNoRoute = r.Chance(1, 6)
 	// the Accept header grows a field line while the request is served, after an earlier negotiation
 	if r.Chance(1, 8) {
 		k.AcceptAdd = hx.Pick(r, ranges) + hx.Pick(r, []string{"", ";q=0.9", ";q=0.5", ";q=0"})
@@ -520,6 +522,8 @@ func fixedCases() []caseT {
 		add(acaseT{Wire: "r", Opts: []optT{{F: &f}}, Len: 4, Pos: 1, Mask: 0x10f, Call: callT{Kind: "helper", Helper: 3, Err: &nan}})
 		add(acaseT{Wire: "s", Opts: []optT{{F: &f}}, Len: 3, Pos: 0, Mask: 7, Call: callT{Kind: "fail", Err: &errT{Kind: "wrap", Msg: "ctx", Inner: &nan}}})
 	}
+	// the pooled context comes back from a NoRoute handler that failed (aborted without a chain)
+	add(acaseT{Wire: "r", Len: 2, Pos: 1, Mask: 1, AfterNoRoute: true, Call: callT{Kind: "helper", Helper: 4, Err: boom}})
 	// an earlier negotiation in the request, then a second Accept field line, then the failure
 	add(acaseT{Wire: "r", Opts: neg, Accept: sp("text/html"), AcceptAdd: "application/vnd.api+json", Len: 3, Pos: 2, Mask: 3, Call: callT{Kind: "helper", Helper: 0, Err: boom}})
 	add(acaseT{Wire: "s", Opts: neg, Accept: sp("application/json;q=0.1"), AcceptAdd: "application/vnd.api+json", Len: 2, Pos: 1, Mask: 1, Call: callT{Kind: "fail", Err: boom}})
